@@ -413,8 +413,22 @@ func (cp *chargePoint) sendResponse(confirmation ocpp.Response, err error, reque
 	}
 }
 
+// dropStaleConclusions discards responses / errors of a previous session that Stop overtook
+// on their way to the callback routine: they would be paired with the callbacks of the new session.
+func (cp *chargePoint) dropStaleConclusions() {
+	for {
+		select {
+		case <-cp.confirmationHandler:
+		case <-cp.errorHandler:
+		default:
+			return
+		}
+	}
+}
+
 func (cp *chargePoint) Start(centralSystemUrl string) error {
 	// Start client
+	cp.dropStaleConclusions()
 	cp.stopC = make(chan struct{}, 1)
 	err := cp.client.Start(centralSystemUrl)
 	// Async response handler receives incoming responses/errors and triggers callbacks
